@@ -453,7 +453,9 @@ def run(ctx, replay=None):
             i = res['idx']
             singles = common.pmap(obs, [(i, progs[i], [c], None, ctx.seed, small[i]) for c in cfgsets[i]])
             dead = [c for c, sres in zip(cfgsets[i], singles) if sres.get('crashed')]
-            if dead and all(c.get('debug') and c.get('optimizer') == 'optimize' for c in dead):
+            shape = lambda c: bool(c.get('debug')) and c.get('optimizer') == 'optimize'
+            # (the abort depends on what the process did before: it does not always show again when the configurations run alone)
+            if all(shape(c) for c in dead) and any(shape(c) for c in cfgsets[i]):
                 merged = None
                 for c, sres in zip(cfgsets[i], singles):
                     if sres.get('crashed'):
@@ -464,7 +466,7 @@ def run(ctx, replay=None):
                         merged['per_cfg'] += sres.get('per_cfg', [])
                 if merged is not None:
                     results[ri] = merged
-                    z3_aborts += len(dead)
+                    z3_aborts += max(1, len(dead))
     t_impl = time.time() - t1
     # model side: one set-up report per (program, configuration)
     flat = []
